@@ -211,6 +211,22 @@ def run(ctx):
                         getattr(cell, o)(getattr(CH, name)())
                     hist.append(f"{o} {name} on all rows")
                     ok = check_tables(cell, viol, desc, hist[-1]) and ok
+            elif hi < 2 * len(forced) and len(cell.nodes) >= 2:
+                # the same patterns on DISJOINT views: the channel is deleted through a view that does
+                # not contain the partner it shares a column / current with
+                from jaxley import channels as CH
+                n_ = len(cell.nodes)
+                cut = rng.randint(1, n_ - 1)
+                A, B = list(range(cut)), list(range(cut, n_))
+                X_, Y_, Z_ = [f.split(":")[1] for f in forced[hi - len(forced)]]
+                gone_first = Z_
+                keep = Y_ if Z_ == X_ else X_
+                for rows_, o, name in ((A, "insert", keep), (B, "insert", gone_first), (B, "delete_channel", gone_first)):
+                    with quiet():
+                        getattr(cell.select(nodes=rows_), o)(getattr(CH, name)())
+                    hist.append(f"{o} {name} on rows {rows_}")
+                    evals += 1
+                    ok = check_tables(cell, viol, desc, hist[-1]) and ok
             for d in range(depth):
                 op = rng.choice(OPS)
                 txt = apply(cell, op, rng)
@@ -314,7 +330,7 @@ def run(ctx):
     for v in viol:
         v.setdefault("finding_class", None)
     return {"evaluations": evals, "distinct_nontrivial": len(distinct),
-            "rule": "random histories (depth 2..7/12) over 14 operations on random views of irregular cells, the first ones seeded with shared-column patterns (Na/K vt, K/Km eK and i_K, CaL/CaT eCa): after EVERY operation contiguity, channel registry, parameters-where-channel, currents, and the row references of recordings/inputs/groups/trainables are checked on the public tables; then integrate is compared with a module rebuilt from the tables only; insert+delete round trips for every channel; network histories with synaptic recordings and view-level deletions; distinct by (cell, history)",
+            "rule": "random histories (depth 2..7/12) over 14 operations on random views of irregular cells, the first ones seeded with shared-column patterns (Na/K vt, K/Km eK and i_K, CaL/CaT eCa) on the whole module and on disjoint views (the channel is deleted through a view that does not contain its partner): after EVERY operation contiguity, channel registry, parameters-where-channel, currents, and the row references of recordings/inputs/groups/trainables are checked on the public tables; then integrate is compared with a module rebuilt from the tables only; insert+delete round trips for every channel; network histories with synaptic recordings and view-level deletions; distinct by (cell, history)",
             "samples": samples, "violations": viol[:20]}
 
 
